@@ -318,6 +318,20 @@ def replay_one(ctx, s, sid, e, order, dom_order, zs, shift, scale, total, spread
                         if got.shape != want.shape or not np.allclose(got, want, rtol=1e-9, atol=1e-12 * total):
                             bad.append("after re-parameterising the same object, project(%s) = %s, brute force %s" % (tuple(b["at"]), got.tolist(), want.tolist()))
                             break
+                    # clique marginals stored on the model (as estimation leaves them), records generated from it, then asked again
+                    if not bad and total >= 1:
+                        import contextlib, io
+                        m.marginals = m.belief_propagation(m.potentials)
+                        np.random.seed(3)
+                        with contextlib.redirect_stdout(io.StringIO()):
+                            m.synthetic_data(rows=5, method="round")
+                        for b in e["beliefs"]:
+                            got = np.asarray(m.project(tuple(b["at"])).values, dtype=float).reshape(-1)
+                            want = np.array(b["w"], dtype=float) * total / Z
+                            if got.shape != want.shape or not np.allclose(got, want, rtol=1e-9, atol=1e-12 * total):
+                                bad.append("after generating records from the model, project(%s) = %s, brute force %s" % (tuple(b["at"]), got.tolist(), want.tolist()))
+                                break
+                        del m.marginals
                     # the bulk path (conditionals by division) on the same object with a very small total
                     if not bad and len(e["beliefs"]) >= 2:
                         m.total = 3e-13
